@@ -155,9 +155,12 @@ def threshold(w):
     from vf import loopcut
     M = importlib.import_module('pytoniq_core.proof.check_proof')
     segs, info = loopcut.cut(M, 'check_block_signatures')
-    w.claim('two top-level loops found', info['loops'] == 2)
-    if info['loops'] != 2:
-        return
+    if info['loops'] != 2:      # the function changed shape: no verdict from this fragment-based obligation (C12.accept_iff and the native ones decide)
+        from vf.sym import Unsupported
+        from vf.engine import Skip
+        if not w.symbolic:
+            raise Skip()        # natively this fragment-based obligation has nothing to run: no verdict
+        raise Unsupported(f'loop cut: expected two top-level loops in check_block_signatures, found {info["loops"]}')
     pre = segs[0][1]({'nodes': [], 'signatures': [], 'blk': Blk(b'\0' * 32, b'\1' * 32)})
     L = dict(pre[-1])
     ints = [k for k, v in L.items() if type(v) is int]
@@ -201,8 +204,11 @@ def step(w, names):
     M = importlib.import_module('pytoniq_core.proof.check_proof')
     segs, info = loopcut.cut(M, 'check_block_signatures')
     if info['loops'] != 2:
-        w.claim('two top-level loops found', False)
-        return
+        from vf.sym import Unsupported
+        from vf.engine import Skip
+        if not w.symbolic:
+            raise Skip()        # natively this fragment-based obligation has nothing to run: no verdict
+        raise Unsupported(f'loop cut: expected two top-level loops in check_block_signatures, found {info["loops"]}')
     w0, w1 = w.int('w0', 0, 1 << 64), w.int('w1', 0, 1 << 64)
     nodes = [Node(_pk(0), w0), Node(_pk(1), w1)]
     blk = Blk(w.bytes('root_hash', 32), w.bytes('file_hash', 32))
@@ -302,3 +308,40 @@ def forged(w):
     else:
         w.claim(f'{how}: a third entry that is not a signature over the block payload is refused', k == 'raise')
         w.claim(f'{how}: refusal is an API error ({type(out).__name__})', k != 'raise' or is_error(out))
+
+
+@obligation('C12.duplicate_keys', 'C12', cases=[{'sigs': sg} for sg in ([0], [1], [0, 1], [1, 0])],
+            fuc=[F + 'check_block_signatures', F + 'calculate_node_id_short'], assumes=[T6],
+            descr='a validator list in which one public key occurs in TWO entries [K0:w0, K1:w1, K0:w2] (weights symbolic), valid signatures by '
+                  'the given keys: the total is the weight of ALL entries; a signature stands for ONE entry of its key - accepted only if '
+                  '3 * (sum over signing keys of the LARGEST entry of that key) > 2 * total, and always accepted if 3 * (sum of the SMALLEST '
+                  'entries) > 2 * total (whichever entry an implementation attributes the signature to)')
+def duplicate_keys(w, sigs):
+    M = importlib.import_module('pytoniq_core.proof.check_proof')
+    ws = [w.int(f'w{i}', 0, 1 << 64) for i in range(3)]
+    blk = Blk(w.bytes('root_hash', 32), w.bytes('file_hash', 32))
+    total = ws[0] + ws[1] + ws[2]
+    hi = {0: w.ite(ws[0] > ws[2], ws[0], ws[2]), 1: ws[1]}
+    lo = {0: w.ite(ws[0] > ws[2], ws[2], ws[0]), 1: ws[1]}
+    if w.symbolic:
+        pks = [_pk(0), _pk(1)]
+        nodes = [Node(pks[0], ws[0]), Node(pks[1], ws[1]), Node(pks[0], ws[2])]
+        sg = [{'node_id_short': M.calculate_node_id_short(pks[v]).hex(), 'signature': bytes([j]) * 64} for j, v in enumerate(sigs)]
+        with w.stub(M, 'verify_sign', lambda public_key, signed_message, signature: True):
+            k, out = call(M.check_block_signatures, nodes, sg, blk)
+    else:
+        keys = _native_keys(2)
+        pks = [k_.verify_key.encode() for k_ in keys]
+        msg = bytes.fromhex('706e0bc5') + blk.root_hash + blk.file_hash
+        nodes = [Node(pks[0], ws[0]), Node(pks[1], ws[1]), Node(pks[0], ws[2])]
+        sg = [{'node_id_short': M.calculate_node_id_short(pks[v]).hex(), 'signature': keys[v].sign(msg).signature} for v in sigs]
+        k, out = call(M.check_block_signatures, nodes, sg, blk)
+    s_hi = sum(hi[v] for v in sigs)
+    s_lo = sum(lo[v] for v in sigs)
+    if k == 'ok':
+        w.cover('accepted')
+        w.claim('accepted only if the signing entries can hold MORE than 2/3 of the weight of ALL entries', 3 * s_hi > 2 * total)
+    else:
+        w.cover('rejected')
+        w.claim('never rejected when even the smallest entries of the signing keys exceed 2/3 of the total', w.Not(3 * s_lo > 2 * total))
+        w.claim(f'rejection is an API error ({type(out).__name__})', is_error(out))
